@@ -134,6 +134,8 @@ def compsOf (m i : Vt) : List String :=
     ++ c (mt.cursor ≠ it.cursor) "cursor" ++ c (mt.pendingWrap ≠ it.pendingWrap) "pending_wrap"
     ++ c (mt.pen ≠ it.pen) "pen" ++ c (mt.activeBufferType ≠ it.activeBufferType) "active_buffer_type"
     ++ c (mt.buffer.view ≠ it.buffer.view) "buffer.view" ++ c (mt.buffer.sb ≠ it.buffer.sb) "buffer.scrollback"
+    ++ c (mt.buffer.sb.length ≠ it.buffer.sb.length) "buffer.sb_len"
+    ++ c ((mt.otherBuffer.sb.length, mt.otherBuffer.view.length) ≠ (it.otherBuffer.sb.length, it.otherBuffer.view.length)) "other_buffer.len"
     ++ c ((mt.buffer.cols, mt.buffer.rows, mt.buffer.limit, mt.buffer.trimNeeded)
           ≠ (it.buffer.cols, it.buffer.rows, it.buffer.limit, it.buffer.trimNeeded)) "buffer.meta"
     ++ c (mt.otherBuffer ≠ it.otherBuffer) "other_buffer" ++ c (mt.tabs ≠ it.tabs) "tabs"
